@@ -5,6 +5,7 @@ import (
 	"fmt"
 	"math"
 	"math/big"
+	"regexp"
 	"strings"
 	"time"
 	"unicode/utf8"
@@ -179,6 +180,82 @@ func goRef(name string, args []cty.Value) (ret cty.Value, raws []string, fails b
 			return cty.NilVal, nil, true, true
 		}
 		return cty.NumberFloatVal(r), nil, false, true
+	case "Regex", "RegexAll":
+		re, err := regexp.Compile(str(0))
+		if err != nil {
+			return cty.NilVal, nil, true, true
+		}
+		names := re.SubexpNames()[1:]
+		named, unnamed := 0, 0
+		for _, n := range names {
+			if n == "" {
+				unnamed++
+			} else {
+				named++
+			}
+		}
+		if named > 0 && unnamed > 0 {
+			return cty.NilVal, nil, true, true
+		}
+		// one match, from the strings regexp reports and from who took part in it
+		one := func(m []string, loc []int) cty.Value {
+			group := func(i int) cty.Value {
+				if loc[2*i] < 0 {
+					return cty.NullVal(cty.String) // the group took no part in the match
+				}
+				raws = append(raws, m[i])
+				return cty.StringVal(m[i])
+			}
+			switch {
+			case len(names) == 0:
+				raws = append(raws, m[0])
+				return cty.StringVal(m[0])
+			case unnamed > 0:
+				vs := make([]cty.Value, len(names))
+				for i := range names {
+					vs[i] = group(i + 1)
+				}
+				return cty.TupleVal(vs)
+			default:
+				o := map[string]cty.Value{}
+				for i, n := range names {
+					o[n] = group(i + 1)
+				}
+				return cty.ObjectVal(o)
+			}
+		}
+		subj := str(1)
+		if name == "Regex" {
+			m, loc := re.FindStringSubmatch(subj), re.FindStringSubmatchIndex(subj)
+			if m == nil {
+				return cty.NilVal, nil, true, true
+			}
+			return one(m, loc), raws, false, true
+		}
+		ms, locs := re.FindAllStringSubmatch(subj, -1), re.FindAllStringSubmatchIndex(subj, -1)
+		if len(ms) == 0 {
+			return cty.NilVal, nil, false, false // an empty list of a pattern-dependent element type: left to the implementation
+		}
+		vs := make([]cty.Value, len(ms))
+		for i := range ms {
+			vs[i] = one(ms[i], locs[i])
+		}
+		return cty.ListVal(vs), raws, false, true
+	case "RegexReplace":
+		re, err := regexp.Compile(str(1))
+		if err != nil {
+			return cty.NilVal, nil, true, true
+		}
+		// the documented rule, match by match: $name / ${name} / $1 in the replacement refer to the groups
+		var sb strings.Builder
+		last := 0
+		for _, loc := range re.FindAllStringSubmatchIndex(str(0), -1) {
+			sb.WriteString(str(0)[last:loc[0]])
+			sb.Write(re.ExpandString(nil, str(2), str(0), loc))
+			last = loc[1]
+		}
+		sb.WriteString(str(0)[last:])
+		return sv(sb.String())
 	case "TimeAdd":
 		t, err := time.Parse(time.RFC3339, str(0))
 		d, err2 := time.ParseDuration(str(1))
@@ -548,6 +625,43 @@ func genC14(c *Ctx, r *rng.R, i int) {
 	}
 	// 3. inverse laws on the implementation
 	switch name {
+	case "FormatList":
+		// row i of formatlist is format applied to the i-th member of every sequence argument and to the other
+		// arguments as they are
+		n := -1
+		okRows := !args[0].IsNull()
+		for _, a := range args[1:] {
+			if a.IsNull() {
+				okRows = false
+				break
+			}
+			if t := a.Type(); t.IsListType() || t.IsTupleType() || t.IsSetType() {
+				if n >= 0 && a.LengthInt() != n {
+					okRows = false
+				}
+				n = a.LengthInt()
+			}
+		}
+		if okRows && n >= 0 && v.LengthInt() == n {
+			rows := v.AsValueSlice()
+			for i := 0; i < n; i++ {
+				row := []cty.Value{args[0]}
+				for _, a := range args[1:] {
+					if t := a.Type(); t.IsListType() || t.IsTupleType() || t.IsSetType() {
+						row = append(row, a.AsValueSlice()[i])
+					} else {
+						row = append(row, a)
+					}
+				}
+				c.Count("oracle_evals")
+				if want, e := stdByName["Format"].F.Call(row); e != nil || !want.RawEquals(rows[i]) {
+					c.Fail("C14/FormatList/row-differs-from-format", fmt.Sprintf("row %d is %s, format of that row gives %s (err=%v)", i, cq.Show(rows[i]), cq.Show(want), e), desc)
+					break
+				}
+			}
+		} else if okRows && n >= 0 {
+			c.Fail("C14/FormatList/row-count", fmt.Sprintf("%d rows for sequences of length %d", v.LengthInt(), n), desc)
+		}
 	case "JSONEncode":
 		if !utf8.ValidString(v.AsString()) {
 			c.Fail("C14/JSONEncode/invalid-utf8", "the document is not valid UTF-8", desc)
